@@ -11,6 +11,7 @@ import (
 	"go/constant"
 	"go/token"
 	"go/types"
+	"golang.org/x/tools/go/types/typeutil"
 	"sort"
 	"strings"
 )
@@ -346,4 +347,82 @@ func zeroValued(f *Func, info *types.Info, e ast.Expr) bool {
 		return true
 	}
 	return false
+}
+
+// clientContextRecovery (C18.10, second half): a request-context id "decodes back to exactly the transaction hash and message
+// index it was built from", and off-chain clients use that to find the creating message again. In client/utils, the function
+// that splits a context id indexes, with result #1 of the split (the message index), the transaction's own message list —
+// the value of GetMsgs() — and nothing derived from it (a list filtered down to the service calls shifts every index behind
+// a message of another kind).
+func (c *Check) clientContextRecovery(rule string) {
+	split := c.typesName("SplitRequestContextID")
+	n := 0
+	for _, f := range c.P.Funcs {
+		if !f.isHandWritten() || f.Body == nil || f.Parent != nil || !strings.HasSuffix(f.Pkg.PkgPath, "/client/utils") {
+			continue
+		}
+		calls := false
+		for _, pa := range c.P.PathsOf(f) {
+			for _, ev := range pa.Events {
+				if ev.Kind == EvCall && ev.CI.name == split {
+					calls = true
+				}
+			}
+		}
+		if !calls {
+			continue
+		}
+		info := f.Pkg.TypesInfo
+		// the variable that receives result #1 of the split
+		var idxVar *types.Var
+		ast.Inspect(f.Body, func(nd ast.Node) bool {
+			as, ok := nd.(*ast.AssignStmt)
+			if !ok || len(as.Rhs) != 1 || len(as.Lhs) < 2 {
+				return true
+			}
+			if call, ok := as.Rhs[0].(*ast.CallExpr); ok {
+				if callee := typeutil.Callee(info, call); callee != nil && callee.Name() == "SplitRequestContextID" {
+					if id, ok := as.Lhs[1].(*ast.Ident); ok {
+						if v, _ := info.Defs[id].(*types.Var); v != nil {
+							idxVar = v
+						} else if v, _ := info.Uses[id].(*types.Var); v != nil {
+							idxVar = v
+						}
+					}
+				}
+			}
+			return true
+		})
+		if idxVar == nil {
+			c.undecided(rule, unitConstruct(f, "message-index"), f.Body.Pos(), "the message index result of the id split is not bound to a variable")
+			continue
+		}
+		ast.Inspect(f.Body, func(nd ast.Node) bool {
+			ix, ok := nd.(*ast.IndexExpr)
+			if !ok {
+				return true
+			}
+			uses := false
+			ast.Inspect(ix.Index, func(m ast.Node) bool {
+				if id, ok := m.(*ast.Ident); ok && info.Uses[id] == types.Object(idxVar) {
+					uses = true
+				}
+				return true
+			})
+			if !uses {
+				return true
+			}
+			n++
+			okList := false
+			if call, ok := ast.Unparen(ix.X).(*ast.CallExpr); ok {
+				if callee := typeutil.Callee(info, call); callee != nil && callee.Name() == "GetMsgs" {
+					okList = true
+				}
+			}
+			c.req(okList, rule, unitConstruct(f, "message-index-into-tx-messages"), ix.Pos(),
+				"the message index decoded from the context id indexes the transaction's own message list (GetMsgs()): "+types.ExprString(ix))
+			return true
+		})
+	}
+	c.req(n >= 1, rule, "client-context-recovery", token.NoPos, fmt.Sprintf("%d uses of the decoded message index as an index in client/utils", n))
 }
